@@ -168,7 +168,7 @@ def run(tier, seed, replay=None):
                 elif op == 'project':
                     o.project(rng.choice(['xy', 'xz', 'x', 'yz']))
                 elif op == 'set_dimension':
-                    o.set_dimension(rng.choice([2, 3]))
+                    o.set_dimension(rng.choice([1, 2, 3, 3]))     # also several components at once (3 -> 1)
                 elif op == 'force_rational':
                     o.force_rational()
                 elif op == 'section':
